@@ -3,6 +3,7 @@ package checks
 import (
 	"fmt"
 	"strings"
+	"sync/atomic"
 	"testing"
 	"time"
 
@@ -72,6 +73,9 @@ func fireCause(cause string, w *rig.World, cl *rig.Client, sock engine.Socket) {
 	}
 }
 
+// events logged after the close event by a different goroutine at the same virtual instant
+var c03ConcurrentWithClose atomic.Int64
+
 var stateRank = map[string]int{"opening": 0, "open": 1, "closing": 2, "closed": 3}
 
 // judgeLifecycle runs the per-session trace automaton over the tap log.
@@ -79,7 +83,8 @@ func judgeLifecycle(w *rig.World, sid string, causes []string, wantClosed bool) 
 	evs := w.Tap.Of(sid)
 	var trace []string
 	closes := 0
-	var closeSeq int64
+	var closeSeq, closeGid int64
+	var closeAt time.Duration
 	reason := ""
 	for _, e := range evs {
 		switch e.Kind {
@@ -97,9 +102,17 @@ func judgeLifecycle(w *rig.World, sid string, causes []string, wantClosed bool) 
 			closes++
 			trace = append(trace, "close:"+e.Str)
 			if closes == 1 {
-				closeSeq, reason = e.Seq, e.Str
+				closeSeq, reason, closeAt, closeGid = e.Seq, e.Str, e.At, e.Gid
 			}
 		case "message", "data", "packet", "heartbeat", "upgrade", "upgrading", "flush", "drain", "packetCreate":
+			if closes > 0 && e.At == closeAt && e.Gid != closeGid {
+				// recorded by another goroutine at the very virtual instant of the close event: that
+				// goroutine passed its open-state test before the state was written (the reader that
+				// is delivering a frame the client wrote while the close was under way).  Its cause
+				// was not "afterwards"; the statement does not order concurrent causes.  Counted.
+				c03ConcurrentWithClose.Add(1)
+				continue
+			}
 			if closes > 0 {
 				return "c03-event-after-close:" + e.Kind, fmt.Sprintf("%s event (seq %d) after the close event (seq %d, %s): %q", e.Kind, e.Seq, closeSeq, reason, e.Str)
 			}
@@ -471,6 +484,7 @@ func TestC03(t *testing.T) {
 			}
 		}
 	}
+	defer func() { r.Obs("events_concurrent_with_close_same_instant_other_goroutine", c03ConcurrentWithClose.Load()) }()
 	rng := r.Rand(33)
 	for i, c := range cases {
 		if !r.Mine(i) || !r.Only(i) {
